@@ -258,7 +258,7 @@ for _frag in ('registry_mb2_sized', 'registry_mb2_dst', 'registry_header', 'regi
     except ModuleNotFoundError:
         continue
     _merge(_m.HARNESSES)
-FORCE_QUICK = {'k_efi_mmap_withheld', 'k_get_tag_first_match', 'k_tags_walk', 'k_tagiter_clone_history', 'k_module_iter',
+FORCE_QUICK = {'k_elf_iter_provided_methods', 'k_efi_mmap_withheld', 'k_get_tag_first_match', 'k_tags_walk', 'k_tagiter_clone_history', 'k_module_iter',
                'k_efi_iter_wellformed', 'k_efi_iter_any', 'k_new_boxed_layout', 'k_mb2hdr_find_header_small'}
 _extra_props = {'k_module_iter': ['C03']}
 # constructors of the header crate's DST kind allocate through new_boxed with a 4-aligned header type:
